@@ -303,6 +303,7 @@ class Store:
         self.log = []
         self.policy = policy or Policy()
         self.createnew = createnew
+        self.flag_attempts = True    # single-actor harnesses: even a refused second write of a path is reported
         self.hashes = HashTable()
         self.actor = 'main'
         self.nsteps = 0
@@ -385,11 +386,16 @@ class Store:
                 return err(t_error(self.ex, 'Other'))
             nonempty = b_lt(0, n.payload.length(self.ex))
             if mode_name == 'CreateNew':
+                # the local transport (transport/local.rs, checked from MIR by the C07 local-write obligation): CreateNew fails
+                # on an existing non-empty file and completes a zero-length leftover; 'strict' (sftp-like) refuses both
                 if self.ex.branch(nonempty, 'overwrite nonempty?'):
-                    self.violations.append((self.nsteps - 1, 'write', path, 'existing non-empty file written again'))
+                    if self.flag_attempts:
+                        self.violations.append((self.nsteps - 1, 'write', path, 'existing non-empty file written again (refused by the transport)'))
+                    return err(t_error(self.ex, 'AlreadyExists'))
                 if self.createnew == 'strict':
                     return err(t_error(self.ex, 'AlreadyExists'))
-            elif n.born == 'pre':
+            elif n.born == 'pre' or self.ex.branch(nonempty, 'overwrite of a file written in this run?'):
+                # archive files are write-once: replacing a non-empty file is a violation whoever wrote it
                 self.violations.append((self.nsteps - 1, 'write', path, 'existing file overwritten'))
         self.nodes[path] = Node('file', payload, born='run' if self.mode != 'pre' else 'pre')
         return ok(UNIT)
@@ -789,6 +795,60 @@ def bytesmut_truncate(ex, m, a, fr, dest):
             out.append((c, o, n - pos))
         pos = end
     b.segs = normalize_segs(out)
+    return UNIT
+
+
+def _split_segs(ex, segs, n):
+    """(segments before byte offset n, segments from n on)"""
+    left, right, pos = [], [], 0
+    for c, o, l in segs:
+        end = pos + l
+        if ex.branch(b_not(b_lt(n, end)), 'split: segment before the cut'):
+            left.append((c, o, l))
+        elif ex.branch(b_lt(pos, n), 'split: segment straddles the cut'):
+            left.append((c, o, n - pos))
+            right.append((c, 0 if c == 'zero' else o + (n - pos), end - n))
+        else:
+            right.append((c, o, l))
+        pos = end
+    return normalize_segs(left), normalize_segs(right)
+
+
+@M.model(r'(?:bytes::)?BytesMut::(split_off|split_to)')
+def bytesmut_split(ex, m, a, fr, dest):
+    b = deref(a[0])
+    n = a[1]
+    if not ex.branch(b_not(b_lt(b.length(), n)), 'split within the buffer'):
+        raise Panic('BytesMut::%s out of bounds' % m.group(1), fr.name if fr else None)
+    left, right = _split_segs(ex, b.segs, n)
+    if m.group(1) == 'split_off':
+        b.segs = left
+        return BufV(right)
+    b.segs = right
+    return BufV(left)
+
+
+@M.model(r'(?:bytes::)?BytesMut::split')
+def bytesmut_split_all(ex, m, a, fr, dest):
+    b = deref(a[0])
+    out = BufV(b.segs)
+    b.segs = []
+    return out
+
+
+@M.model(r'(?:bytes::)?BytesMut::unsplit|(?:bytes::)?BytesMut::extend_from_slice|<(?:bytes::)?BytesMut as Extend<.*>>::extend::<.*>')
+def bytesmut_append(ex, m, a, fr, dest):
+    b = deref(a[0])
+    o = deref(a[1])
+    if isinstance(o, BufV):
+        b.segs = normalize_segs(b.segs + o.segs)
+    elif isinstance(o, Data):
+        b.segs = normalize_segs(b.segs + list(o.segs))
+    elif isinstance(o, BufSlice):
+        _l, right = _split_segs(ex, o.buf.segs, o.start)
+        b.segs = normalize_segs(b.segs + right)
+    else:
+        raise Unsupported('BytesMut append of %r' % (o,))
     return UNIT
 
 
